@@ -46,6 +46,13 @@ def candidates():
                 d = os.path.join(inc, prop, v)
                 if os.path.exists(os.path.join(d, "patch.diff")):
                     out.append((f"{prop}-{v}", prop, d))
+    inc2 = os.path.join(VERIF, "seeded", "_incoming2")
+    if os.path.isdir(inc2):
+        for prop in sorted(os.listdir(inc2)):
+            for v in sorted(os.listdir(os.path.join(inc2, prop))):
+                d = os.path.join(inc2, prop, v)
+                if os.path.exists(os.path.join(d, "patch.diff")):
+                    out.append((f"{prop}-{'C' if v == 'A' else 'D'}", prop, d))
     for h, prop in HIST.items():
         d = os.path.join(VERIF, "seeded", h)
         if os.path.exists(os.path.join(d, "patch.diff")):
